@@ -56,7 +56,7 @@ package scheduler
 // no other control's waiter list changes.
 //@ specfunc oldAnswered(c *torrentControl) bool = forall j int :: 0 <= j && j < len(old(c.errors)) ==> sent(old(c.errors)[j]) >= 1
 //@ func dispatcherCompleteEvent.apply
-//@   requires s != nil && s.torrentControls != nil
+//@   requires s != nil && s.torrentControls != nil && blok(s.conns)
 //@   requires forall k core.InfoHash :: k in s.torrentControls ==> s.torrentControls[k] != nil && allocated(s.torrentControls[k])
 //@   modifies *
 //@   ensures controls_kept: forall k core.InfoHash :: ((k in s.torrentControls) <==> old(k in s.torrentControls)) && s.torrentControls[k] == old(s.torrentControls[k])
